@@ -66,16 +66,27 @@ func runC03(c *Ctx) {
 					s.Data(l, []byte{byte(it.k)})
 					continue
 				}
+				// the fields a container might (wrongly) look at: most messages carry
+				// their timestamp, many their message_index (small, repeating, not
+				// ascending); then a few more fields, or all of them
 				var fs []FieldDef
+				have := map[int]bool{}
 				if tf := p.field(it.m, 253); tf != nil && rng.Intn(4) != 0 {
-					fs = append(fs, g.fieldDefFor(tf)) // most messages carry their timestamp
+					fs = append(fs, g.fieldDefFor(tf))
+					have[253] = true
+				}
+				if mf := p.field(it.m, 254); mf != nil && rng.Intn(2) == 0 {
+					fs = append(fs, g.fieldDefFor(mf))
+					have[254] = true
+				}
+				more := 1 + rng.Intn(4)
+				if rng.Intn(4) == 0 {
+					more = len(pm.Fields)
 				}
 				for _, fi := range rng.Perm(len(pm.Fields)) {
-					if pm.Fields[fi].N == 253 && len(fs) > 0 && fs[0].Num == 253 {
-						continue
-					}
-					if len(fs) < 1+rng.Intn(4) {
+					if more > 0 && !have[pm.Fields[fi].N] {
 						fs = append(fs, g.fieldDefFor(&pm.Fields[fi]))
+						more--
 					}
 				}
 				fidKind := rng.Intn(4)
